@@ -289,7 +289,8 @@ def lattice(ctx, name, L):
             continue
         for filler in ((0, 0, True), (0, 0, False), (1, 1, False)):
             if n > 2000:
-                yield "C", [("rep", n - 1, filler), (3, 3, False)]
+                if filler[0] == 0:   # 50k int/int evaluations per case cost the Coq side ~13 s: keep those small
+                    yield "C", [("rep", n - 1, filler), (3, 3, False)]
             else:
                 yield "C", [filler] * n
     # ---- D: random vectors from the gadget pool
@@ -774,6 +775,14 @@ def run(ctx):
     ctx.assumptions += ["entry sizes are non-negative (zipfile unpacks them as unsigned)",
                         "limits within limits_exact for the exact-decision theorem (defaults are: Inst.v)"]
     gen_limits(ctx, zb)
+    import time as _time
+    _t = [_time.time()]
+    phases = ctx.extra.setdefault("phase_s", {})
+
+    def lap(name):
+        now = _time.time()
+        phases[name] = round(now - _t[0], 1)
+        _t[0] = now
 
     # ------------------------------------------------------------------ proofs
     ctx.prove("C11/Props.v", ["C11/Proofs.vo"], expected=[
@@ -784,7 +793,9 @@ def run(ctx):
     ctx.prove("C11/Inst.v", ["Gen/C11Limits.vo", "C11/Corr.vo", "C11/Proofs.vo"], expected=[
         "C11_default_limits_exact", "C11_default_guard_exact"])
 
+    lap("proofs")
     inventory(ctx)
+    lap("inventory")
 
     # ------------------------------------------------------------------ (a) validate_zipfile on the lattice
     pre = "From Coq Require Import ZArith List.\nImport ListNotations.\nFrom S2T Require Import C11.Model C11.Corr.\nOpen Scope Z_scope.\n"
@@ -820,7 +831,7 @@ def run(ctx):
                         f"validate_zipfile {'rejects' if got else 'accepts'} but the exact predicate says "
                         f"{clauses or 'no clause holds'} (limits {name}: {L}, entries {flat[:8]})",
                         {"limits": repr(L), "entries": flat[:200], "clauses": clauses, "got": got})
-        elif not exact and got == 0 and clauses and name == "wide" and all(fs >= 0 and cs >= 0 for fs, cs, d in flat):
+        elif not exact and got == 0 and clauses and name in ("wide", "float-rounding-witness", "float-rounding-40") and all(fs >= 0 and cs >= 0 for fs, cs, d in flat):
             only_ratio = set(clauses) <= {"entry-ratio", "total-ratio"}
             ctx.finding("float-ratio-rounding-above-2^53" if only_ratio else f"validate-decision-wide:{'+'.join(clauses)}",
                         f"validate_zipfile accepts although {clauses} hold exactly (byte limits above 2^53, entries {flat[:3]})",
@@ -835,6 +846,7 @@ def run(ctx):
         code = got if got in (0, 1, 2) else 9
         cases.append(f"({limits_coq(L)}, {entries_coq(es)}, {code})")
         info.append((name, repr(L), flat[:12], got))
+    lap("validate-impl")
     ok, failing, log = coq_eval_shards(ctx, "validate", pre, "corr_validate", cases, shard=400, ty="limits * list entry * Z")
     ctx.traces += len(cases)
     ctx.disagreements += len(failing)
@@ -847,6 +859,7 @@ def run(ctx):
     if failing or failing2:
         ctx.extra["validate_disagreements"] = [info[i] for i in (failing + failing2)[:10]]
 
+    lap("validate-coq")
     # ------------------------------------------------------------------ (b) int / int
     pairs = div_pairs(ctx, quotients)
     dcases = []
@@ -869,6 +882,7 @@ def run(ctx):
     ctx.traces += len(dcases)
     ctx.disagreements += len(fd) + len(fs_)
 
+    lap("fdiv")
     # ------------------------------------------------------------------ (c) validate_zip_bytesio / open_zipfile on real ZIPs
     rng = ctx.rng
     low = zb.ZipBombLimits(3, 1000, 400, 10.0, 20.0)
@@ -946,6 +960,7 @@ def run(ctx):
     ctx.traces += len(bcases)
     ctx.disagreements += len(fb)
 
+    lap("bytesio")
     # ------------------------------------------------------------------ monitor: ZipContext programs and the extractors
     mon = Monitor().install()
     try:
@@ -1014,6 +1029,7 @@ def run(ctx):
         ctx.traces += len(zcases)
         ctx.disagreements += len(fz)
 
+        lap("zipcontext")
         # (e) the extractors on fixtures and forged variants
         seen_fmt = set()
         for fmt, fn, fixtures in container_extractors():
@@ -1045,12 +1061,14 @@ def run(ctx):
                         if not clauses and out == "bomb":
                             ctx.finding(f"extractor-rejects-nonbomb:{fmt}:{vname}", f"{fn.__name__} raised the zip-bomb error although "
                                         f"no clause holds ({fx.name}, {vname})", {"fixture": str(fx), "variant": vname, "outcome": out})
+        lap("extractors")
         ctx.obligation("monitor:all 9 ZIP-container extractors exercised", len(seen_fmt) == 9, f"{sorted(seen_fmt)}")
         tcases = [trace_coq(t) for t in traces]
         okt, ft, logt = coq_eval_shards(ctx, "traces", pre, "corr_trace", tcases, shard=300, ty="list event")
         ctx.obligation("monitor:every recorded event trace is accepted by trace_ok (validate dominates reads)", okt and not ft,
                        (f"{len(ft)} rejected traces, first: {traces[ft[0]][:10] if ft else ''} " + logt)[:1000])
         ctx.traces += len(tcases)
+        lap("traces-coq")
         ctx.extra["monitor_traces"] = len(tcases)
         ctx.extra["monitor_events"] = sum(len(t) for t in traces)
     finally:
